@@ -1,7 +1,7 @@
 (* Correspondence and specification checks for io/cdedb.rs (C05, C11, C12, C13, C08 external quality) *)
 From Coq Require Import List ZArith Bool Arith NArith String.
 From Flocq Require Import IEEE754.Binary IEEE754.Bits.
-Require Import HP1 Cao1 Cao3 Score1 Spec Json Cde CorrSel F32.
+Require Import HP1 Cao1 Cao3 Score1 Spec Json Cde CdeSpec CorrSel F32.
 Import ListNotations.
 Open Scope nat_scope.
 
@@ -128,13 +128,15 @@ Definition ext_quality_okb (j : json) (ic ia : bool) (e : exp_read) : bool :=
 
 (* bits: 1 reader model = implementation (problem, quality data, ids; or both refuse) | 2 the implementation accepted the document
    | 4 C12: penalty = position in the original choice list | 8 C12: documents that must be refused are refused
-   | 16 C08: ignored pre-assigned participants are rated by their course's rank in the original choice list *)
+   | 16 C08: ignored pre-assigned participants are rated by their course's rank in the original choice list
+   | 32 the declarative specification CdeSpec.spec_read = implementation *)
 Definition check_read (c : read_case) : N :=
   let '(j, tr, ic, ia, ff, of, e) := c in
   ((if read_agree (read_fields j tr ic ia ff of) e then 1 else 0) + (match e with Some _ => 2 | None => 0 end) +
    (match e with Some ex => if penalties_okb j ex then 4 else 0 | None => 4 end) +
    (match e with Some _ => if must_refuseb j tr then 0 else 8 | None => 8 end) +
-   (match e with Some ex => if ext_quality_okb j ic ia ex then 16 else 0 | None => 16 end))%N.
+   (match e with Some ex => if ext_quality_okb j ic ia ex then 16 else 0 | None => 16 end) +
+   (if read_agree (spec_read j tr ic ia ff of) e then 32 else 0))%N.
 
 (* end to end: export, options, and the registrations / course segments of the import file the real binary wrote *)
 Definition import_case := (json * option Z * bool * bool * option (list (Z * Z) * list (Z * bool)))%type.
@@ -174,7 +176,7 @@ Definition rcourse_eqb (a b : rcourse) : bool :=
   Nat.eqb (rc_inv_instr a) (rc_inv_instr b) && Nat.eqb (rc_inv_att a) (rc_inv_att b).
 Definition check_twin (c : twin_case) : N :=
   let '(j1, j2, tr, ic, ia) := c in
-  match read_full j1 tr ic ia, read_full j2 tr ic ia with
+  match spec_read j1 tr ic ia None None, spec_read j2 tr ic ia None None with
   | ROk (p1, c1, a1), ROk (p2, c2, a2) =>
     if list_eqb rpart_eqb p1 p2 && list_eqb rcourse_eqb c1 c2 && (ra_event a1 =? ra_event a2)%Z && (ra_track a1 =? ra_track a2)%Z &&
        (match ra_qual a1, ra_qual a2 with Some (n1, l1), Some (n2, l2) => Nat.eqb n1 n2 && list_eqb Nat.eqb l1 l2 | None, None => true | _, _ => false end)
